@@ -73,9 +73,9 @@ type c14Result struct {
 	Problems []c14Problem `json:"problems"`
 	Steps    int          `json:"steps"`
 	// LateCatchUps counts 200 ms waits beyond the expected completion event.
-	LateCatchUps int `json:"late_catch_ups"`
-	Checks   int          `json:"checks"`
-	Err      string       `json:"err"`
+	LateCatchUps int    `json:"late_catch_ups"`
+	Checks       int    `json:"checks"`
+	Err          string `json:"err"`
 }
 
 type hostMux struct{ m map[string]*stublog.Server }
